@@ -367,7 +367,7 @@ def traced(lab, run_dir):
     return calls, snap_trace.effective(calls, run_dir)
 
 
-def check_killed(r, step, run_dir):
+def check_killed(r, step, run_dir, soft=False):
     """the killed process must have died on entry to exactly the intended call"""
     calls = snap_trace.parse(open(run_dir + ".trace").read())
     last = calls[-1] if calls else None
@@ -379,10 +379,11 @@ def check_killed(r, step, run_dir):
         and last.name == want.name
         and [os.path.basename(x) for x in last.paths] == [os.path.basename(x) for x in want.paths]
     )
-    if not ok:
+    if not ok and not soft:
         raise RuntimeError(
             "kill injection did not hit the intended call: wanted %r, trace ends with %r (sig=%s)" % (want, last, r["sig"])
         )
+    return ok
 
 
 def build_template(lab, hist):
@@ -413,7 +414,10 @@ def build_template(lab, hist):
                 raise Skip("no operation matching %s in this implementation" % ev["after"])
             j = idx[0] + 1
             rk = lab.pool.run(lab.spec(tdir, ev["actions"], trace=True, inject=inject_of(steps[j])))
-            check_killed(rk, steps[j], tdir)
+            if not check_killed(rk, steps[j], tdir, soft=True):
+                # strace counts system calls by name: a stray write (a warning on stderr under load)
+                # shifts the ordinal.  Not an observation of the implementation: this history is left out.
+                raise Skip("the kill injection did not land on the intended call of this history's preparation")
             trig, sid, step = hs[0]
             toks += scan_orders(steps)
             toks.append("C:%s:%d:%d:%d" % (trig, sid, step, snap_trace.model_index(steps, j)))
@@ -514,7 +518,18 @@ def run_history(lab, hist, only=None):
     dirs = []
     for j, d in meta:
         if j < len(steps):
-            check_killed(next(it), steps[j], d)
+            hit = check_killed(next(it), steps[j], d, soft=True)
+            for attempt in range(2):
+                if hit:
+                    break
+                # strace counts system calls by name: a stray write (a warning on stderr under load)
+                # shifts the ordinal.  The crash point is tried again on a fresh copy; if the kill still
+                # lands elsewhere the point is left out (and counted), it is not an observation.
+                d = lab.copy(tdir, "k-%s-%d-again%d" % (hist["name"], j, attempt))
+                hit = check_killed(lab.pool.run(lab.spec(d, hist["final"], trace=True, inject=inject_of(steps[j]))), steps[j], d, soft=True)
+            if not hit:
+                lab.ctx.count("crash-point-not-hit-by-the-injection(left out)")
+                continue
         dirs.append((j, None, d))
         # a file in flight: the kill may also have landed inside any of its writes
         if j < len(steps) and steps[j].inflight and steps[j].op and steps[j].op.startswith("finish:"):
